@@ -313,3 +313,51 @@ T('f_c12_copy_method_then_ior', ['C12'],
            '        self.allowed_methods |= methods\n'))
 T('f_c12_union_through_local_then_update', ['C12'],
   (A, _UM, '        if methods:\n            merged = self.allowed_methods.union(methods)\n            self.allowed_methods = merged\n            self.allowed_methods.discard(None)\n'))
+
+# ---- C13 / R13.b: the stack being wrapped is named first; the walk runs over a list of groups --------------------------
+_SEH = "        self._dispatch_wsgi = _safe_wrap_wsgi('error_handler', error_handler, self._dispatch_wsgi)\n"
+_WL = "            self._dispatch_wsgi = _safe_wrap_wsgi('middleware', mw, self._dispatch_wsgi)\n"
+T('f_c13_inner_named_before_wrap', ['C13'],
+  (A, _SEH, "        inner_wsgi = self._dispatch_wsgi\n"
+            "        self._dispatch_wsgi = _safe_wrap_wsgi(source_name='error_handler', source=error_handler, inner=inner_wsgi)\n"),
+  (A, _WL, "            below = self._dispatch_wsgi\n            self._dispatch_wsgi = _safe_wrap_wsgi('middleware', mw, below)\n"))
+# the stack is read once, before the loop: every wrapper wraps the bare application, only the last one survives
+B('f_c13_inner_read_before_loop', ['C13'], 'R13.b',
+  (A, '        for mw in reversed(all_mws):\n' + _WL,
+      "        below = self._dispatch_wsgi\n        for mw in reversed(all_mws):\n            self._dispatch_wsgi = _safe_wrap_wsgi('middleware', mw, below)\n"))
+# ... read before the render check re-installs a handler
+B('f_c13_inner_read_before_rebinding_call', ['C13'], 'R13.b',
+  (A, '        check_render_error(error_handler.render_error, self.resources)\n' + _SEH,
+      "        inner_wsgi = self._dispatch_wsgi\n        if error_handler is not self.error_handler_fallback:\n            self.set_error_handler(self.error_handler_fallback)\n"
+      "        check_render_error(error_handler.render_error, self.resources)\n"
+      "        self._dispatch_wsgi = _safe_wrap_wsgi('error_handler', error_handler, inner_wsgi)\n"))
+B('f_c13_inner_is_not_the_stack', ['C13'], 'R13.b',
+  (A, _SEH, "        inner_wsgi = self._dispatch_wsgi_unwrapped\n"
+            "        self._dispatch_wsgi = _safe_wrap_wsgi('error_handler', error_handler, inner_wsgi)\n"))
+_GMA = ('    for mw in app_middlewares:\n'
+        '        if mw not in all_mw:\n'
+        '            all_mw.append(mw)\n'
+        '\n')
+_GROUP_LOOP = ('    for mw_group in mw_groups:\n        for mw in mw_group:\n'
+               '            if mw not in all_mw:\n                all_mw.append(mw)\n')
+T('f_c13_collect_groups_list', ['C13'],
+  (A, _GMA, ''),
+  (A, _GM, '    mw_groups = [app_middlewares]\n    mw_groups.extend(broute.middlewares for broute in reversed(bound_routes))\n' + _GROUP_LOOP))
+T('f_c13_collect_groups_concatenated', ['C13'],
+  (A, _GMA, ''),
+  (A, _GM, '    mw_groups = [app_middlewares] + [broute.middlewares for broute in reversed(bound_routes)]\n' + _GROUP_LOOP))
+# the application's own group comes after the routes' groups
+B('f_c13_collect_groups_app_last', ['C13'], 'R13.b',
+  (A, _GMA, ''),
+  (A, _GM, '    mw_groups = [broute.middlewares for broute in reversed(bound_routes)]\n    mw_groups.append(app_middlewares)\n' + _GROUP_LOOP))
+# the application's own group is missing / only present per route
+B('f_c13_collect_groups_routes_only', ['C13'], 'R13.d',
+  (A, _GMA, ''),
+  (A, _GM, '    mw_groups = []\n    mw_groups.extend(broute.middlewares for broute in reversed(bound_routes))\n' + _GROUP_LOOP))
+B('f_c13_collect_groups_app_per_route', ['C13'], 'R13.d',
+  (A, _GMA, ''),
+  (A, _GM, '    mw_groups = []\n    mw_groups.extend(app_middlewares + broute.middlewares for broute in reversed(bound_routes))\n' + _GROUP_LOOP))
+# the groups hold each route's list backwards
+B('f_c13_collect_groups_inner_reversed', ['C13'], 'R13.b',
+  (A, _GMA, ''),
+  (A, _GM, '    mw_groups = [app_middlewares]\n    mw_groups.extend(broute.middlewares[::-1] for broute in reversed(bound_routes))\n' + _GROUP_LOOP))
